@@ -1010,6 +1010,14 @@ func TestC08(t *testing.T) {
 			kit.Note("listed finding %s did not reproduce on its minimal case (got %+v)", c08KBare, v)
 		}
 	}
+	// one large failing diff (more records than the compiler's batch size of 100000,
+	// the bad line at the end): all-or-nothing must hold for big diffs as well
+	if kit.Shard() == 1%kit.NShards() {
+		c08BigFailingDiff(t)
+		kit.Eval()
+		kit.Class("big-failing-diff")
+		kit.NonTrivial("big-failing-diff")
+	}
 	kit.SetRapid(kit.N(300, 8000))
 	rapid.Check(t, kit.Prop("C08", func(t *rapid.T) {
 		c := c08Gen(t, knownBare)
@@ -1023,4 +1031,49 @@ func TestC08(t *testing.T) {
 		c08Book(c, infos)
 		kit.Sample(c)
 	}))
+}
+
+type c08BigCase struct {
+	Records int    `json:"records"`
+	BadLine string `json:"bad_line"`
+	V2      bool   `json:"v2"`
+}
+
+// c08BigFailingDiff applies a diff of 100100 additions followed by a delete of
+// an absent record to a small database: it must fail and change nothing.
+func c08BigFailingDiff(t kit.Fataler) {
+	for _, v2 := range []bool{false, true} {
+		cs := c08BigCase{Records: 100100, BadLine: "-+absent.big.example,192.0.2.9", V2: v2}
+		dir := kit.Scratch("c08big")
+		p, err := kit.Compile([]byte("+a.big.example,192.0.2.1\n+b.big.example,192.0.2.2\n"), 1, dir, c08Backend(v2), kit.DefaultCompile)
+		if err != nil {
+			kit.Fail(t, "C08", "setup-error", cs, "compile: %v", err)
+		}
+		before, err := kit.DumpRDBc08(p)
+		if err != nil {
+			kit.Fail(t, "C08", "setup-error", cs, "dump: %v", err)
+		}
+		var sb strings.Builder
+		for i := 0; i < cs.Records; i++ {
+			fmt.Fprintf(&sb, "++n%d.big.example,192.0.2.3\n", i)
+		}
+		sb.WriteString(cs.BadLine + "\n")
+		u, err := rdb.NewUpdater(p)
+		if err != nil {
+			kit.Fail(t, "C08", "setup-error", cs, "updater: %v", err)
+		}
+		aerr := u.ApplyDiff(strings.NewReader(sb.String()), 1)
+		_ = u.Close()
+		after, derr := kit.DumpRDBc08(p)
+		_ = os.RemoveAll(dir)
+		if derr != nil {
+			kit.Fail(t, "C08", "setup-error", cs, "dump: %v", derr)
+		}
+		if aerr == nil {
+			kit.Fail(t, "C08", "bad-diff-accepted/big", cs, "a diff deleting an absent record was applied without error")
+		}
+		if d := c08SameChunks(before, after); d != "" || len(before) != len(after) {
+			kit.Fail(t, "C08", "failed-diff-changed-db/big", cs, "a failing diff of %d records left the database changed: %d keys before, %d after (%s)", cs.Records, len(before), len(after), d)
+		}
+	}
 }
